@@ -517,7 +517,12 @@ def _format(fmt, args):
             out.extend(SymStr.lift(dtoa.format_fixed(conv_float(a), int(prec) if prec is not None else 6, w, '0' in flags)).cells)
         elif conv == 's' and isinstance(a, SymFloat):
             from . import dtoa
-            out.extend(SymStr.lift(dtoa.repr_float(a)).cells)
+            try:
+                out.extend(SymStr.lift(dtoa.repr_float(a)).cells)
+            except E.Unsupported:
+                # the shortest-digits text of this float is not modelled: the formatted string is opaque (fine for messages, which are
+                # never inspected; inspecting it ends the run as unsupported)
+                opaque = Opaque('%s of a symbolic float')
         elif conv == 'r' or conv == 's':
             opaque = Opaque('%%%s of %s' % (conv, type(a).__name__))
         else:
